@@ -291,6 +291,7 @@ type trackedGauge struct {
 	Start    time.Time
 	End      time.Time
 	Deposit  sdk.Coins // everything that ever entered the escrow account
+	TopUp    sdk.Coins // the part of Deposit that arrived after the transaction that created the gauge (third-party transfers)
 	Recorded sdk.Coins
 	CumRel   sdk.Coins
 	Rewards  int // reward blocks seen inside [start,end]
@@ -317,13 +318,17 @@ func (gt *gaugeTracker) AfterTx(rc *RunCtx, s *SW, pre, post chain.Balances) {
 		}
 		ad := a.String()
 		t := gt.g[ad]
-		if t == nil {
+		isNew := t == nil
+		if isNew {
 			t = &trackedGauge{ID: fmt.Sprintf("%x", g.Id), Addr: ad, Start: g.Start, End: g.End, Recorded: g.Coins}
 			gt.g[ad] = t
 		}
 		for dn, v := range df[ad] {
 			if v.IsPositive() {
 				t.Deposit = t.Deposit.Add(sdk.NewCoin(dn, v))
+				if !isNew {
+					t.TopUp = t.TopUp.Add(sdk.NewCoin(dn, v))
+				}
 			}
 		}
 	}
@@ -368,7 +373,16 @@ func (gt *gaugeTracker) CheckBlock(rc *RunCtx, ro *RewardObs, now time.Time) {
 			if cum.GT(dep.Amount) {
 				rc.Fail(P+"released-more-than-deposit", "h=%d: gauge %s released %s%s in total, deposit %s", ro.Height, t.ID[:8], cum, dn, dep.Amount)
 			}
-			if total > 0 {
+			if top := t.TopUp.AmountOf(dn); total > 0 && top.IsPositive() {
+				// somebody transferred tokens into the escrow after the gauge was created. The statement fixes the stream of
+				// "the amount deposited for it" (the purchase): that part must keep streaming at least pro rata; when the
+				// extra tokens leave (at once, or streamed) is not fixed, only that the total never exceeds what entered.
+				base := dep.Amount.Sub(top)
+				want := new(big.Int).Div(new(big.Int).Mul(base.BigInt(), big.NewInt(el)), big.NewInt(total))
+				if new(big.Int).Sub(want, cum.BigInt()).Cmp(big.NewInt(1)) > 0 {
+					rc.Fail(P+"not-linear/stream-behind-after-top-up", "h=%d: gauge %s cumulative release %s%s is behind the pro-rata floor(%s*%dus/%dus)=%s of its own deposit (a further %s%s was transferred into the escrow later)", ro.Height, t.ID[:8], cum, dn, base, el, total, want, top, dn)
+				}
+			} else if total > 0 {
 				want := new(big.Int).Div(new(big.Int).Mul(dep.Amount.BigInt(), big.NewInt(el)), big.NewInt(total))
 				diff := new(big.Int).Sub(cum.BigInt(), want)
 				if diff.CmpAbs(big.NewInt(1)) > 0 {
